@@ -781,6 +781,43 @@ def r7_bookkeeping(report, repo):
                  '%s does not record the subtest name on every path with a '
                  'subtest record: subtest_previous checkpoints no longer see '
                  'this phase' % q)
+  r7_diagnoses(report, repo, rule)
+
+
+def _helper_effects(repo, rel, cls, meth):
+  """Summary of a same-class helper: {(effect, diag_param_index,
+  rec_param_index or None)} for the effects that happen on every normal path
+  through the helper (a wrapper that always stores counts as a store)."""
+  q = cls + '.' + meth
+  if not repo.has_func(rel, q):
+    return set()
+  f = repo.func(rel, q)
+  g = lib.cfg(f)
+  ps = lib.param_names(f.node)
+  out = set()
+  for n, c in lib.nodes_with_call(g):
+    eff = None
+    if call_name(c) == 'self._add_diagnosis' and c.args and \
+        dotted(c.args[0]) in ps:
+      eff = ('store', ps.index(dotted(c.args[0])), None)
+    elif last_attr(c) == 'add_diagnosis' and c.args and dotted(
+        c.args[0]) in ps and dotted(c.func.value) in ps:
+      eff = ('test-record', ps.index(dotted(c.args[0])),
+             ps.index(dotted(c.func.value)))
+    if eff is None:
+      continue
+    reach = [g.entry] + g.reach([g.entry], avoid=lambda x, _n=n: x is _n,
+                                avoid_edge=lambda a, l, b: l in ('exc', 'raise'))
+    if g.entry is n or not any(x is g.exit for x in reach):
+      out.add(eff)
+  return out
+
+
+def r7_diagnoses(report, repo, rule='C02-R7'):
+  report.rule(rule + 'd', 'T-MUST: every diagnosis a diagnoser returns is added '
+              'to the diagnoses store (branches, diagnosis checkpoints and '
+              'conditional validators read it) and, unless internal, to the '
+              'test record; same-class helpers are summarised')
   DL = 'openhtf/core/diagnoses_lib.py'
   for q, var_rec in (('DiagnosesManager.execute_phase_diagnoser', 3),
                      ('DiagnosesManager.execute_test_diagnoser', 2)):
@@ -791,12 +828,30 @@ def r7_bookkeeping(report, repo):
     h = heads[0]
     var = dotted(h.ast.target)
     body = h.succ('iter')
+    recp = lib.param_names(f.node)[var_rec]
+
+    def via_helper(c, what, _var=var, _recp=recp):
+      if not (isinstance(c.func, ast.Attribute) and
+              core.is_name(c.func.value, 'self')):
+        return False
+      for eff, di, ri in _helper_effects(repo, DL, 'DiagnosesManager',
+                                         c.func.attr):
+        if eff != what:
+          continue
+        # parameter index -> positional argument (self is param 0)
+        if di - 1 < len(c.args) and dotted(c.args[di - 1]) == _var and (
+            ri is None or (ri - 1 < len(c.args) and
+                           dotted(c.args[ri - 1]) == _recp)):
+          return True
+      return False
+
     for what, pred in (
-        ('store', lambda c: call_name(c) == 'self._add_diagnosis' and
-         dotted(c.args[0]) == var),
-        ('test-record', lambda c: last_attr(c) == 'add_diagnosis' and dotted(
-            c.func.value) == lib.param_names(f.node)[var_rec] and
-         dotted(c.args[0]) == var)):
+        ('store', lambda c: (call_name(c) == 'self._add_diagnosis' and c.args
+                             and dotted(c.args[0]) == var) or
+         via_helper(c, 'store')),
+        ('test-record', lambda c: (last_attr(c) == 'add_diagnosis' and dotted(
+            c.func.value) == recp and c.args and dotted(c.args[0]) == var) or
+         via_helper(c, 'test-record'))):
       adds = [n for n, c in lib.nodes_with_call(g) if pred(c)]
 
       def skip_edge(a, l, b, _what=what):
